@@ -142,6 +142,7 @@ Proof.
     - exact (pass2_disj _ d (ct_loosen c) cs (f1_trees p1) (mkFl2 [] _ 0 (f1_minor p1) 0%nat) p2 Hall D1 (Forall_nil _) E2).
     - injection E2 as <-. exact D1. }
   destruct (flex_spaces _ _ _) as [sp| | |] eqn:Es; try discriminate. cbn [bind] in E.
+  rewrite flex_place_chk_ok in E. cbn [bind] in E.
   destruct (fold_left (flex_place _ _ _) _ _) as [placed off] eqn:E3.
   destruct (from_axes d off (f2_minor p2)) as [h w].
   destruct (ct_clamp c h w) as [hw| | |]; try discriminate. cbn [bind] in E. injection E as <-.
@@ -167,6 +168,7 @@ Proof.
     destruct (if sz_h =? 0 then _ else _) as [ch| | |]; try discriminate. cbn [bind] in E.
     destruct (if sz_w =? 0 then _ else _) as [cw| | |]; try discriminate. cbn [bind] in E.
     destruct (layout vc v _) as [t0| | |] eqn:El; try discriminate. cbn [bind] in E.
+    rewrite !align_chk_ok in E. cbn [bind] in E.
     destruct (if align_eqb av AShrink then _ else _) as [x| | |]; try discriminate. cbn [bind] in E.
     destruct (if align_eqb ah AShrink then _ else _) as [y| | |]; try discriminate. cbn [bind] in E.
     injection E as <-. apply disj_one. apply disj_set_pos. eapply IHv; eauto.
@@ -175,7 +177,8 @@ Proof.
     destruct (layout vc v _) as [t0| | |] eqn:El; try discriminate. cbn [bind] in E. injection E as <-.
     apply disj_one. apply disj_set_pos. eapply IHv; eauto.
   - (* scroll bar *)
-    destruct (from_axes d _ 1) as [h w]. destruct (from_axes d 0 _) as [r cc]. injection E as <-. apply disj_leaf.
+    destruct (from_axes d _ 1) as [h w]. rewrite usub_ok in E by lia. cbn [bind] in E.
+    destruct (from_axes d 0 _) as [r cc]. injection E as <-. apply disj_leaf.
   - destruct (layout vc v c) as [t0| | |] eqn:El; try discriminate. cbn [bind] in E. injection E as <-.
     apply disj_one. eauto.
   - injection E as <-. apply disj_leaf.
